@@ -3,7 +3,10 @@ import copy
 from .. import gen
 from . import seqprop
 
-GEN = ["JsonUtilGen.v"]
+GEN = ['JsonUtilGen.v', 'Decisions.v', 'Sites.v']
+DECISIONS = ['FileBuilder._remove_empty_dirs', 'FileBuilder._try_to_remove_file', 'FileBuilder.clean']
+SITES = True
+ORDER = False
 
 
 def make_cases(rng, tier, budget):
